@@ -619,8 +619,42 @@ def rule_introspect(ctx):
                                'the written JSON lacks what the JSON schema reader needs: it generates different code than the SDL'))
             else:
                 obs.append(ok('DOC-CONTENT', it['name'] + '/members', 'selects every member the JSON schema reader consumes', it['loc']))
+            # deprecated members are part of the schema: `fields` / `enumValues` of a type are asked with includeDeprecated: true
+            # (the specification leaves deprecated members out of the answer otherwise)
+            for sel in ('fields', 'enumValues'):
+                occ = [j for j, t in enumerate(toks) if t == sel and j + 1 < len(toks) and toks[j + 1] in ('(', '{')]
+                badocc = [j for j in occ if toks[j + 1:j + 6] != ['(', 'includeDeprecated', ':', 'true', ')']]
+                if occ and not badocc:
+                    obs.append(ok('DOC-CONTENT', '%s/includeDeprecated/%s' % (it['name'], sel), '%s(includeDeprecated: true)' % sel, it['loc']))
+                elif badocc:
+                    obs.append(bad('DOC-CONTENT', '%s/includeDeprecated/%s' % (it['name'], sel), '%s selects `%s` without includeDeprecated: true' % (qp.split('/')[-1], sel), it['loc'],
+                                   'the downloaded JSON schema silently lacks every deprecated %s: code generated from it differs from the SDL of the same schema' % ('field' if sel == 'fields' else 'enum value')))
+            docs[mod]['seq'] = toks
     if len(docs) < 4:
         obs.append(bad('DOC-CONTENT', 'floor', 'anchor-missing: expected 4 derived introspection operations, found %d' % len(docs)))
+    # the four documents are one query with two optional members: apart from those members and the names of the operation and
+    # its fragments they select the same things with the same arguments
+    def _skeleton(d_):
+        names = set(d_['ops'])
+        sq = d_.get('seq', [])
+        for j, t in enumerate(sq):
+            if t == 'fragment' and j + 2 < len(sq) and sq[j + 2] == 'on':
+                names.add(sq[j + 1])
+        return [('<name>' if t in names else t) for t in sq if t not in ('isOneOf', 'specifiedByURL', 'specifiedByUrl')]
+    sk = {m_: _skeleton(d_) for m_, d_ in docs.items() if d_.get('seq')}
+    if len(sk) >= 2:
+        plain = [m_ for m_, d_ in docs.items() if m_ in sk and not d_['isOneOf'] and not d_['specifiedByURL']]
+        ref_m = plain[0] if plain else sorted(sk)[0]
+        for m_ in sorted(sk):
+            if m_ == ref_m:
+                continue
+            if sk[m_] == sk[ref_m]:
+                obs.append(ok('DOC-CONTENT', docs[m_]['struct'] + '/sibling', 'selects what %s selects (apart from isOneOf / specifiedByURL)' % docs[ref_m]['file'].split('/')[-1], docs[m_]['loc']))
+            else:
+                k_ = next((i_ for i_, (a_, b_) in enumerate(zip(sk[m_], sk[ref_m])) if a_ != b_), min(len(sk[m_]), len(sk[ref_m])))
+                obs.append(bad('DOC-CONTENT', docs[m_]['struct'] + '/sibling', '%s differs from %s at `%s` (there: `%s`)' % (
+                    docs[m_]['file'].split('/')[-1], docs[ref_m]['file'].split('/')[-1], ' '.join(sk[m_][max(0, k_ - 2):k_ + 3]), ' '.join(sk[ref_m][max(0, k_ - 2):k_ + 3])), docs[m_]['loc'],
+                    'the schema downloaded with these flags is not the schema downloaded without them'))
     # --- DOC-TABLE: which body reaches .json() for each flag combination
     blk = fn.body
     target = None
